@@ -187,9 +187,9 @@ func c11FieldsDecodedIndependently(r *core.Report) {
 type atomEnv struct {
 	fn    *core.Func
 	named func(e ast.Expr) (name string, negated bool, ok bool) // recognised atoms
-	free  map[string]bool                                       // names of unrecognised atoms met
 }
 
+// eval is three-valued: ok == false means the value depends on a sub-condition that is not one of the named atoms.
 func (e *atomEnv) eval(x ast.Expr, val map[string]bool, depth int) (bool, bool) {
 	info := e.fn.Pkg.TypesInfo
 	x = core.Unparen(x)
@@ -206,13 +206,14 @@ func (e *atomEnv) eval(x ast.Expr, val map[string]bool, depth int) (bool, bool) 
 		if v.Op == token.LAND || v.Op == token.LOR {
 			a, ok1 := e.eval(v.X, val, depth)
 			b, ok2 := e.eval(v.Y, val, depth)
-			if !ok1 || !ok2 {
-				return false, false
+			dom := v.Op == token.LOR // the dominating value: true for ||, false for &&
+			switch {
+			case ok1 && a == dom, ok2 && b == dom:
+				return dom, true
+			case ok1 && ok2:
+				return !dom, true
 			}
-			if v.Op == token.LAND {
-				return a && b, true
-			}
-			return a || b, true
+			return false, false
 		}
 	case *ast.Ident:
 		if depth < 4 {
@@ -230,9 +231,34 @@ func (e *atomEnv) eval(x ast.Expr, val map[string]bool, depth int) (bool, bool) 
 	if name, neg, ok := e.named(x); ok {
 		return val[name] != neg, true
 	}
-	name := "free:" + core.ExprStr(x)
-	e.free[name] = true
-	return val[name], true
+	return false, false
+}
+
+// mayReach: target is reachable from the entry of g when every edge whose condition has a definite value under val is
+// followed in that direction only and every other edge both ways.
+func (e *atomEnv) mayReach(g *core.Graph, target *core.GNode, val map[string]bool) bool {
+	seen := map[*core.GNode]bool{}
+	queue := []*core.GNode{g.Entry}
+	for len(queue) > 0 {
+		x := queue[0]
+		queue = queue[1:]
+		if seen[x] {
+			continue
+		}
+		seen[x] = true
+		if x == target {
+			return true
+		}
+		if x.Kind == core.KEdge && x.Ast != nil && x.Tag == nil {
+			if c, isExpr := x.Ast.(ast.Expr); isExpr {
+				if v, ok := e.eval(c, val, 0); ok && v != x.Truth {
+					continue
+				}
+			}
+		}
+		queue = append(queue, x.Succs...)
+	}
+	return false
 }
 
 // c19IncludeAppliedOnEveryPath (C19.R17): a non-empty account_include is honoured whichever way the request is served. The
@@ -333,87 +359,45 @@ func c19IncludeAppliedOnEveryPath(r *core.Report) {
 		}
 		return "", false, false
 	}
-	// the scan loop: the per-slot loop whose body does not consult the address index (the first top-level if of the function
-	// that contains a per-slot ForStmt)
-	var scanCond ast.Expr
-	for _, st := range f.Body.List {
-		is, ok := st.(*ast.IfStmt)
-		if !ok {
-			continue
+	// the scan loop: the per-slot three-clause loop of the function; the any-of test: the range over the include list inside
+	// the predicate. Both are located in their flow graphs and reached by an abstract run per valuation.
+	key := f.Key + "#scan-path-with-include-list-applies-the-any-of-test"
+	g := r.Prog.Graph(f)
+	var scanNode, predNode *core.GNode
+	var predFn *core.Func
+	var scanAt ast.Node
+	ast.Inspect(f.Body, func(m ast.Node) bool {
+		if _, isLit := m.(*ast.FuncLit); isLit {
+			return false
 		}
-		hasSlotLoop := false
-		for _, s2 := range is.Body.List {
-			if fs, ok := s2.(*ast.ForStmt); ok && fs.Post != nil {
-				hasSlotLoop = true
-			}
+		if fs, ok := m.(*ast.ForStmt); ok && fs.Post != nil && fs.Cond != nil && scanNode == nil {
+			scanNode, scanAt = g.NodeOf(fs.Cond.Pos()), fs
+			return false
 		}
-		if hasSlotLoop && scanCond == nil {
-			scanCond = is.Cond
-		}
-	}
-	// the predicate's condition for applying the any-of test: the if that encloses the range over the include list
-	var predCond ast.Expr
+		return true
+	})
 	for _, l := range allLits(f) {
 		ast.Inspect(l.Body, func(m ast.Node) bool {
-			is, ok := m.(*ast.IfStmt)
-			if !ok {
-				return true
-			}
-			for _, s2 := range is.Body.List {
-				found := false
-				ast.Inspect(s2, func(k ast.Node) bool {
-					if rs, ok := k.(*ast.RangeStmt); ok && includeList != nil && core.ObjOf(info, rs.X) == includeList {
-						found = true
-					}
-					return !found
-				})
-				if found && predCond == nil {
-					predCond = is.Cond
-				}
+			if rs, ok := m.(*ast.RangeStmt); ok && includeList != nil && core.ObjOf(info, rs.X) == includeList && predNode == nil {
+				predFn = l
+				predNode = r.Prog.Graph(l).NodeOf(rs.X.Pos())
 			}
 			return true
 		})
 	}
-	key := f.Key + "#scan-path-with-include-list-applies-the-any-of-test"
-	if scanCond == nil || predCond == nil {
-		r.Undecided(rule, key, posP(r, f.Pos()), "condition of the block-scan path or of the predicate's any-of test not found")
+	if scanNode == nil || predNode == nil || loaded == nil {
+		r.Undecided(rule, key, posP(r, f.Pos()), "the per-slot scan loop, the predicate's any-of test or the index-loaded flag not found")
 		return
 	}
-	env := &atomEnv{fn: f, named: named, free: map[string]bool{}}
-	// discover free atoms
-	env.eval(scanCond, map[string]bool{}, 0)
-	env.eval(predCond, map[string]bool{}, 0)
-	var names []string
-	for k := range env.free {
-		names = append(names, k)
-	}
-	if len(names) > 8 {
-		r.Undecided(rule, key, posP(r, f.Pos()), "too many unrecognised sub-conditions")
-		return
-	}
+	env := &atomEnv{fn: f, named: named}
+	penv := &atomEnv{fn: predFn, named: named}
 	bad := ""
-	for g := 0; g < 2; g++ {
-		for m := 0; m < 1<<uint(len(names)); m++ {
-			val := map[string]bool{"F": false, "E": false, "G": g == 1}
-			for i, nm := range names {
-				val[nm] = m&(1<<uint(i)) != 0
-			}
-			sc, ok1 := env.eval(scanCond, val, 0)
-			pc, ok2 := env.eval(predCond, val, 0)
-			if !ok1 || !ok2 {
-				continue
-			}
-			if sc && !pc {
-				var on []string
-				for _, nm := range names {
-					if val[nm] {
-						on = append(on, strings.TrimPrefix(nm, "free:"))
-					}
-				}
-				bad = fmt.Sprintf("address index loaded = %v, %s", g == 1, strings.Join(on, ", "))
-			}
+	for gi := 0; gi < 2; gi++ {
+		val := map[string]bool{"F": false, "E": false, "G": gi == 1}
+		if env.mayReach(g, scanNode, val) && !penv.mayReach(r.Prog.Graph(predFn), predNode, val) {
+			bad = fmt.Sprintf("address index loaded = %v", gi == 1)
 		}
 	}
-	r.Check(bad == "", rule, key, pos(r, scanCond), "whenever blocks are scanned for a request with a non-empty account_include, the predicate applies the any-of test",
-		"with a non-empty account_include the block-scan path is taken although the predicate does not apply the any-of test there ["+bad+"]: transactions that mention none of the included accounts are streamed, and the result depends on whether an address index is loaded")
+	r.Check(bad == "", rule, key, pos(r, scanAt), "whenever blocks are scanned for a request with a non-empty account_include, the predicate applies the any-of test",
+		"with a non-empty account_include the block-scan path can be taken although the predicate does not apply the any-of test there ["+bad+"]: transactions that mention none of the included accounts are streamed, and the result depends on whether an address index is loaded")
 }
